@@ -209,12 +209,13 @@ Example C05_exempt_positional_call_transparent :
   /\ run1 ctx0 add (poscall [k_inst] [vx] []) (returns (VInt 1%Z)) = (Raise PTypeCheckC, []).
 Proof. repeat split; reflexivity. Qed.
 
-(* observation (not claimed by C05, outside the four kinds of supplied values of C03): a DEFAULTED parameter of an exempt method
-   passed positionally is not checked - its default is checked in its place: k('x') on __call__(self, x: int = 0) runs the body *)
-Example C05_observation_exempt_defaulted_positional_unchecked :
+(* repaired by /repo f0d33a4: a DEFAULTED parameter of an exempt method passed positionally is checked like any other value:
+   k('x') on __call__(self, x: int = 0) is rejected, k(1) runs the body *)
+Example C05_exempt_defaulted_positional_checked :
   let call := method "__call__" self_name [par b_ PosOrKw AInt (Some (VInt 0%Z))] (tflags false false false false 0) in
-  fst (run1 ctx0 call (poscall [k_inst] [vx] []) (returns (VInt 1%Z))) = Ok (VInt 1%Z).
-Proof. reflexivity. Qed.
+  run1 ctx0 call (poscall [k_inst] [vx] []) (returns (VInt 1%Z)) = (Raise PTypeCheckC, [])
+  /\ fst (run1 ctx0 call (poscall [k_inst] [VInt 1%Z] []) (returns (VInt 1%Z))) = Ok (VInt 1%Z).
+Proof. split; reflexivity. Qed.
 
 (* ---------------- the hypotheses are satisfiable ---------------- *)
 Example C05_guards_satisfiable :
